@@ -1,15 +1,26 @@
 use crate::core::Ctx;
 pub mod c01;
+pub mod c02;
+pub mod c05;
+pub mod c06;
 pub mod c03;
 pub mod c04;
 
 pub fn run(ctx: &Ctx) -> bool {
     match ctx.id.as_str() {
         "C01" => c01::run(ctx),
+        "C02" => c02::run(ctx),
+        "C05" => c05::run(ctx),
+        "C06" => c06::run(ctx),
         "C03" => c03::run(ctx),
         "C04" => c04::run(ctx),
         _ => return false,
     }
     true
 }
-pub fn tool(_name: &str, _args: &[String]) -> i32 { 2 }
+pub fn tool(name: &str, args: &[String]) -> i32 {
+    match name {
+        "gen-golden" => c06::gen_golden(std::path::Path::new(args.first().map(|s| s.as_str()).unwrap_or("/verif/golden"))),
+        _ => { eprintln!("unknown tool {}", name); 2 }
+    }
+}
